@@ -1,7 +1,7 @@
 (* Extraction of the executable model. ExtrOcamlBasic only; N/Z/positive/nat stay inductive. *)
 From Coq Require Extraction ExtrOcamlBasic.
 From Base Require Import PyStr.
-From Model Require Import Wrap RxPort Tags LineWrap Frontmatter FsOps.
+From Model Require Import Wrap RxPort Tags LineWrap Frontmatter FsOps Cli.
 
 Extraction Language OCaml.
 Extraction "model.ml"
@@ -14,4 +14,5 @@ Extraction "model.ml"
   wrap_paragraph_lines_md wrap_paragraph line_wrap_to_width line_wrap_by_sentence
   split_sentences_regex split_markdown_hard_breaks fill_text
   split_frontmatter fill_markdown_fm
-  run_prog target_okb.
+  run_prog target_okb
+  main_run merge_fields find_config.
